@@ -48,9 +48,20 @@ func ruleShrinklogCapture(c *Ctx) {
 			testLoc = Loc{t.Block, len(t.Block.Nodes) - 1, cond}
 		}
 	}
+	// an append to aofbuf: a direct store, or a call of a helper whose (synchronous) effects write it
+	mu := c.muLK()
 	grows := fg.Find(func(n ast.Node) bool {
-		as, ok := n.(*ast.AssignStmt)
-		return ok && len(as.Lhs) == 1 && selField(info, as.Lhs[0]) == aofbuf
+		if as, ok := n.(*ast.AssignStmt); ok && len(as.Lhs) == 1 && selField(info, as.Lhs[0]) == aofbuf {
+			return true
+		}
+		if call, ok := n.(*ast.CallExpr); ok && mu.err == "" {
+			if f := callee(info, call); f != nil && f != fn.Obj {
+				if u := mu.lk.ofDecl[f]; u != nil && len(mu.lk.effects(u, map[string]bool{"Server.aofbuf": true})) > 0 {
+					return true
+				}
+			}
+		}
+		return false
 	})
 	logs := fg.Find(func(n ast.Node) bool {
 		as, ok := n.(*ast.AssignStmt)
